@@ -1,6 +1,6 @@
 (* C03 property theorems. This file contains only statements closed by
    [exact lemma] and Print Assumptions. *)
-From V Require Import Common.Base C03.Num C03.SpecOps C03.NumProofs C03.Tree C03.Fold C03.PowProofs C03.MiniJS C03.Worlds C03.TreeProofs C03.TreeProofs2 C03.TreeProofs3 C03.TreeProofs4 C03.TreeProofs5 C03.TreeProofs6 C03.TreeProofs7 C03.TreeProofs8 C03.TreeProofs9 C03.TreeProofs10 C03.TreeProofs13 C03.TreeProofs11 C03.TreeProofs12 C03.Refuted.
+From V Require Import Common.Base C03.Num C03.SpecOps C03.NumProofs C03.Tree C03.Fold C03.PowProofs C03.MiniJS C03.Worlds C03.TreeProofs C03.TreeProofs2 C03.TreeProofs3 C03.TreeProofs4 C03.TreeProofs5 C03.TreeProofs6 C03.TreeProofs7 C03.TreeProofs8 C03.TreeProofs9 C03.TreeProofs10 C03.TreeProofs13 C03.TreeProofs11 C03.TreeProofs12 C03.Stmt C03.StmtProofs C03.Refuted.
 
 (* js_ast.ToInt32 computes ECMA-262 ToInt32 for every float64 (finite dyadic of
    any magnitude, NaN, infinities), whatever Go's implementation-defined
@@ -299,3 +299,40 @@ Theorem simplify_unused_total :
   forall unbound noOptChain e, simplify_unused unbound noOptChain e <> UFuel.
 Proof. exact simplify_unused_total_all. Qed.
 Print Assumptions simplify_unused_total.
+
+(* Statement-level mangling (mangleStmts / mangleIf of the parser), by translation
+   validation.  Statement lists (expression statements, if/else, return, throw,
+   break/continue, blocks, var/let/const declarations, loops as opaque effects) have
+   a completion-record trace semantics over the worlds of MiniJS; [norm_fn] turns a
+   function body into a decision tree of effects, tests and completions, splitting
+   the operators the mangler builds statements from (comma, !, void, &&, ||, ?: in
+   statement, test, return and throw position).  The tree has exactly the
+   executions of the body, so two bodies with the same tree are equivalent.  The
+   check computes both trees for every generated function body as parsed by
+   js_parser.Parse without and with MinifySyntax and compares them (and checks that
+   no hoisted "var" name is lost).
+   PARTIAL (which rewrites of the mangler are inside, i.e. identified by the normal
+   form): "if (a) return b; return c" => "return a ? b : c" (also throw), "if (a) b;
+   else c" => "a ? b : c" / "a && b" / "a || b", negated tests, dropping "else"
+   after a jump, "if (a) return; rest" => "a || rest", joining expression
+   statements (and a following return / throw / if test / for initializer) with
+   comma, merging adjacent declarations, dead code after jumps, dropping empty
+   statements and blocks, a trailing "return;" / "return void a" at the end of a
+   function, "if (a) return;" at the end of a function, reading a declared
+   identifier for nothing.  Not inside: an if with equal arms that are not jumps, the
+   store (a declaration evaluates its initializer, the binding is not modelled: the
+   single-use substitution of the mangler is not covered), loop bodies (opaque),
+   switch / try / labels.
+   Full statement: mangleStmts preserves the executions of every statement list. *)
+Theorem stmt_normal_form_sound :
+  forall (W : world) (wloop : Z -> nat -> trace * outcome) body tr,
+    exec_tree W wloop tr (norm_fn (w_unbound W) body) = exec_fn W wloop tr body.
+Proof. exact norm_fn_sound. Qed.
+Print Assumptions stmt_normal_form_sound.
+
+Theorem mangle_stmts_equiv_partial :
+  forall (W : world) (wloop : Z -> nat -> trace * outcome) input output,
+    norm_fn (w_unbound W) input = norm_fn (w_unbound W) output ->
+    forall tr, exec_fn W wloop tr input = exec_fn W wloop tr output.
+Proof. exact same_normal_form_equiv. Qed.
+Print Assumptions mangle_stmts_equiv_partial.
